@@ -188,10 +188,8 @@ func (in *Interp) installStubs4() {
 	}
 	// ---- regexp: Go's engine is trusted and run natively on concrete operands ----
 	S["regexp.Compile"] = func(in *Interp, a []Value) Value {
-		s, ok := a[0].(Str)
-		if !ok || s.B != nil {
-			abortf("unsupported: regexp.Compile of a symbolic pattern")
-		}
+		s0 := a[0].(Str)
+		s := Str{S: in.concretizeStr(s0, "regexp.Compile pattern")}
 		r, err := regexp.Compile(s.S)
 		if err != nil {
 			return Tuple{Ptr{}, in.goError(err.Error())}
@@ -199,11 +197,7 @@ func (in *Interp) installStubs4() {
 		return Tuple{in.newNative(r), Iface{}}
 	}
 	subject := func(in *Interp, v Value) string {
-		s := v.(Str)
-		if s.B != nil {
-			abortf("unsupported: regexp match on a symbolic subject")
-		}
-		return s.S
+		return in.concretizeStr(v.(Str), "regexp subject")
 	}
 	S["(*regexp.Regexp).MatchString"] = func(in *Interp, a []Value) Value {
 		r := in.nativeOf(a[0].(Ptr)).(*regexp.Regexp)
